@@ -494,6 +494,7 @@ void run_case(Rng& rng, std::uint64_t idx)
         }
         J inf2 = J(info).u("world", P).b("user_callback", user).i("false_at", false_at).f("target", target);
         count("mpi_collectives", world.collectives);
+        if (std::uint64_t mis = vf_mpi_take_misuse()) viol("mpi:library-used-MPI_COMM_WORLD-instead-of-the-communicator-it-was-given", J(inf2).u("uses", mis));
         if (world.aborted) { viol("mpi:ranks-disagree-on-collectives-or-hang", J(inf2).s("reason", world.abort_reason)); shared() = 0; ::unlink(file.c_str()); return; }
         std::uint64_t total_inv = 0;
         for (int r = 0; r < P; ++r)
